@@ -69,7 +69,7 @@ impl<'a> EM<'a> {
         let r = with_deadline(DEADLINE_S, move || match v.as_str() {
             "from_str" => Epoch::from_str(&owned).map_err(|_| ()),
             "greg_str" => Epoch::from_gregorian_str(&owned).map_err(|_| ()),
-            _ => serde_json::from_str::<Epoch>(&format!("\"{}\"", owned)).map_err(|_| ()),
+            x => serde_parse::<Epoch>(x, &owned),
         });
         self.rec.ev("parse_epoch", format!("\"via\":\"{}\",\"s\":{},\"res\":{}", via, jstr(s), jparsed_epoch(&r)), true);
         if let Some(Ok(Ok(e))) = r {
@@ -78,13 +78,44 @@ impl<'a> EM<'a> {
     }
 }
 
+/// JSON text of the string `s`; `escape` writes every character as a \\uXXXX escape (surrogate pairs beyond
+/// the BMP), which no deserializer can lend out as a borrowed str
+pub fn json_string(s: &str, escape: bool) -> String {
+    if !escape {
+        return serde_json::to_string(s).unwrap();
+    }
+    let mut o = String::from("\"");
+    for c in s.chars() {
+        let mut b = [0u16; 2];
+        for u in c.encode_utf16(&mut b) {
+            o.push_str(&format!("\\u{:04x}", u));
+        }
+    }
+    o.push('"');
+    o
+}
+
+/// deserialize `s` (the content of a JSON string) through one of serde_json's entry points
+pub fn serde_parse<T: serde::de::DeserializeOwned>(via: &str, s: &str) -> Result<T, ()> {
+    match via {
+        "serde_value" => serde_json::from_value::<T>(serde_json::Value::String(s.to_string())).map_err(|_| ()),
+        "serde_reader" => serde_json::from_reader::<_, T>(json_string(s, false).as_bytes()).map_err(|_| ()),
+        "serde_esc" => serde_json::from_str::<T>(&json_string(s, true)).map_err(|_| ()),
+        "serde_slice" => serde_json::from_slice::<T>(json_string(s, false).as_bytes()).map_err(|_| ()),
+        _ => serde_json::from_str::<T>(&json_string(s, false)).map_err(|_| ()),
+    }
+}
+pub const SERDE_VIAS: [&str; 5] = ["serde", "serde_value", "serde_reader", "serde_esc", "serde_slice"];
+
 impl<'a> DM<'a> {
     pub fn fmt_dur(&mut self, serde: bool) -> Option<String> {
         let a = self.d;
         let r = if serde {
             catch(|| {
                 let s = serde_json::to_string(&a).unwrap();
-                s[1..s.len() - 1].to_string()
+                let v = serde_json::to_value(a).unwrap();
+                assert_eq!(serde_json::from_str::<String>(&s).unwrap(), v.as_str().unwrap(), "to_string and to_value differ");
+                v.as_str().unwrap().to_string()
             })
         } else {
             catch(|| format!("{a}"))
@@ -94,10 +125,11 @@ impl<'a> DM<'a> {
     }
     pub fn parse_dur(&mut self, via: &str, s: &str) {
         let owned = s.to_string();
-        let serde = via == "serde";
+        let serde = via.starts_with("serde");
+        let v = via.to_string();
         let r = with_deadline(DEADLINE_S, move || {
             if serde {
-                serde_json::from_str::<Duration>(&format!("\"{}\"", owned)).map_err(|_| ())
+                serde_parse::<Duration>(&v, &owned)
             } else {
                 Duration::from_str(&owned).map_err(|_| ())
             }
@@ -276,7 +308,9 @@ pub fn c10(rec: &mut Rec, lm: &Landmarks, rng: &mut Rng, thorough: bool) {
             }
             3 => {
                 if let Some(s) = m.fmt_epoch("display", ts) {
-                    m.parse_epoch("serde", &s);
+                    for via in SERDE_VIAS {
+                        m.parse_epoch(via, &s);
+                    }
                 }
             }
             4 => {
@@ -394,7 +428,9 @@ pub fn c11(rec: &mut Rec, lm: &Landmarks, rng: &mut Rng, thorough: bool) {
                     }
                     if (k + dn + ui as i128) % 5 == 0 {
                         if let Some(s) = m.fmt_dur(true) {
-                            m.parse_dur("serde", &s);
+                            for via in SERDE_VIAS {
+                                m.parse_dur(via, &s);
+                            }
                         }
                         for su in UNITS {
                             m.subdivision(su);
@@ -428,7 +464,7 @@ pub fn c11(rec: &mut Rec, lm: &Landmarks, rng: &mut Rng, thorough: bool) {
         m.load(c, nn);
         m.decompose();
         if let Some(s) = m.fmt_dur(i % 7 == 0) {
-            m.parse_dur(if i % 7 == 0 { "serde" } else { "from_str" }, &s);
+            m.parse_dur(if i % 7 == 0 { SERDE_VIAS[(i / 7) % 5] } else { "from_str" }, &s);
             m.parts();
         }
     }
@@ -497,6 +533,27 @@ pub fn c11(rec: &mut Rec, lm: &Landmarks, rng: &mut Rng, thorough: bool) {
                 };
                 m.rec.episode();
                 m.parse_dur("from_str", &t);
+            }
+        }
+    }
+    for sign in ['+', '-'] {
+        for h in [0u32, 1, 9, 10, 11, 19, 20, 23, 24, 99] {
+            for mi in [0u32, 1, 30, 59, 60, 99] {
+                for s in [0u32, 1, 59, 60] {
+                    if !thorough && (h + mi + s) % 3 == 1 && h != 0 {
+                        continue;
+                    }
+                    for form in 0..4 {
+                        let t = match form {
+                            0 => format!("{sign}{h:02}:{mi:02}"),
+                            1 => format!("{sign}{h:02}:{mi:02}:{s:02}"),
+                            2 => format!("{sign}{h:02}{mi:02}"),
+                            _ => format!("{sign}{h:02}{mi:02}{s:02}"),
+                        };
+                        m.rec.episode();
+                        m.parse_dur("from_str", &t);
+                    }
+                }
             }
         }
     }
